@@ -115,6 +115,11 @@ func tagToField(input reflect.Value, tagType TagType) map[string]reflect.Value {
 			names = append(names, multirefs...)
 
 			for _, name := range names {
+				if name == "" {
+					// No multiref tag is set or it contains an empty
+					// alias - the empty key is no alias of the field.
+					continue
+				}
 				ttf[name] = field
 			}
 		case Doc:
